@@ -6,6 +6,7 @@ def step (line : String) : String :=
   match line.trimAscii.toString.splitOn " " with
   | "c17.run" :: args => handleRun args
   | "c17.spec" :: args => handleSpec args
+  | "c17.argclass" :: args => handleArgClass args
   | _ => "bad-op"
 
 partial def loop (h : IO.FS.Stream) (out : IO.FS.Stream) : IO Unit := do
